@@ -8,4 +8,70 @@ theorem withBorrow_ok {α : Type} (c : Cell) (h : c.borrowed = false) (k : List 
     withBorrow c k = .ok (k c.contexts).1 { contexts := (k c.contexts).2, borrowed := false } := by
   simp [withBorrow, h]
 
+/-! ## values -/
+
+theorem find_map_set (es : Ctx) (k : String) (v : Val) (h : es.any (fun e => e.1 == k) = true) :
+    (es.map (fun e => if e.1 == k then (k, v) else e)).find? (fun e => e.1 == k) = some (k, v) := by
+  induction es with
+  | nil => cases h
+  | cons e es ih =>
+    by_cases he : (e.1 == k) = true
+    · simp only [List.map_cons, he, if_true, List.find?_cons, beq_self_eq_true]
+    · have hf : (e.1 == k) = false := by simpa using he
+      have hr : es.any (fun e => e.1 == k) = true := by
+        simpa only [List.any_cons, hf, Bool.false_or] using h
+      simp only [List.map_cons, hf, Bool.false_eq_true, if_false, List.find?_cons, ih hr]
+
+theorem lookup_setIn (es : Ctx) (k : String) (v : Val) : lookup (setIn es k v) k = some v := by
+  unfold lookup setIn
+  by_cases h : es.any (fun e => e.1 == k) = true
+  · rw [if_pos h, find_map_set es k v h]; rfl
+  · rw [if_neg h, List.find?_append]
+    have hn : es.find? (fun e => e.1 == k) = none := by
+      rw [List.find?_eq_none]
+      intro e he hk
+      exact h (List.any_eq_true.mpr ⟨e, he, hk⟩)
+    rw [hn]
+    simp only [Option.none_or, List.find?_cons, beq_self_eq_true, Option.map_some]
+
+theorem find_map_other (es : Ctx) (k k' : String) (v : Val) (hk : (k == k') = false) :
+    (es.map (fun e => if e.1 == k then (k, v) else e)).find? (fun e => e.1 == k') = es.find? (fun e => e.1 == k') := by
+  induction es with
+  | nil => rfl
+  | cons e es ih =>
+    by_cases he : (e.1 == k) = true
+    · have hek : e.1 = k := by simpa using he
+      have h1 : (e.1 == k') = false := by rw [hek]; exact hk
+      simp only [List.map_cons, he, if_true, List.find?_cons, h1, hk, ih]
+    · have hf : (e.1 == k) = false := by simpa using he
+      simp only [List.map_cons, hf, Bool.false_eq_true, if_false, List.find?_cons, ih]
+
+theorem lookup_setIn_other (es : Ctx) (k k' : String) (v : Val) (hk : k' ≠ k) :
+    lookup (setIn es k v) k' = lookup es k' := by
+  have h2 : (k == k') = false := beq_false_of_ne (Ne.symm hk)
+  unfold lookup setIn
+  split
+  · rw [find_map_other es k k' v h2]
+  · rw [List.find?_append]
+    simp only [List.find?_cons, h2, List.find?_nil, Option.or_none]
+
+theorem deep_nil (v : Val) : deep v [] = some v := by cases v <;> rfl
+
+theorem deep_single (ctx : Ctx) (k : String) : deep (.ctx ctx) [k] = lookup ctx k := by
+  simp only [deep]
+  cases lookup ctx k with
+  | none => rfl
+  | some v => exact deep_nil v
+
+theorem find_then_lookup (l : List Ctx) (k : String) :
+    (match l.find? (fun ctx => (lookup ctx k).isSome) with
+      | some ctx => deep (.ctx ctx) [k]
+      | none => none) = l.findSome? (fun ctx => lookup ctx k) := by
+  induction l with
+  | nil => rfl
+  | cons c l ih =>
+    cases hc : lookup c k with
+    | none => simp only [List.find?_cons, hc, Option.isSome_none, List.findSome?_cons, ih]
+    | some v => simp only [List.find?_cons, hc, Option.isSome_some, List.findSome?_cons, deep_single]
+
 end Dmn.ScopeCell
